@@ -45,7 +45,9 @@ EntAtY == BySlot(<< At(1, 4),     \* 2023-12-30 18:00
                     At(4, 2),     \* 2024-01-02 06:00
                     At(4, 4) >>)  \* 2024-01-02 18:00
 (* 12-31 has 1.json with entries 3..6; 01-01 has 2.json (7, 8, 9) and 3.json (10, 11, 12) *)
-EntRunY == WithInvalid(<<1, 1, 1, 1, 1, 1, 2, 2, 2, 3, 3, 3, 2, 2, 3, 3>>)
+(* 01-02: the OLDER run (2) completes at 18:00, after the newer run (3) at 06:00 -- run ids and completion
+   times are not ordered alike (a long unit of an earlier change set finishes late) *)
+EntRunY == WithInvalid(<<1, 1, 1, 1, 1, 1, 2, 2, 2, 3, 3, 3, 3, 3, 2, 2>>)
 BoundsYQ == { At(1, 3), At(2, 2), At(2, 5), At(3, 1), At(3, 2), At(3, 4), At(4, 2), At(4, 5), At(5, 2) }
 BoundsYM == { At(1, 3), At(2, 5), At(3, 2), At(3, 4), At(4, 2), At(4, 5) }   \* the quick model run
 NowsYQ == { At(5, 2) }              \* 2024-01-03 06:00
